@@ -103,13 +103,13 @@ theorem run_str (hcfg : cfg.py3str_as_py2str = false) (s : String)
   rw [rdBytes_enc _ _ h]
   simp [hcfg, utf8_roundtrip]
 
-theorem run_newlist (n : Nat) (h : n < two31) :
+theorem run_newlist (hmem : cfg.memLimit = none) (n : Nat) (h : n < two31) :
     run cfg (opNEWLIST :: (be4 n ++ rest)) st
       = run cfg rest (.list (List.replicate n .none) :: st) := by
   refine run_cont ?_
   rw [step_NEWLIST]
   rw [rdI32_be4 _ h]
-  simp
+  simp [memExceeded, hmem]
 
 theorem run_newdict : run cfg (opNEWDICT :: rest) st = run cfg rest (.dict [] :: st) :=
   run_cont (step_NEWDICT cfg rest st)
@@ -283,7 +283,8 @@ theorem buildColl_frozenset (xs st : List PyVal) (rest : Bytes) (hf : fresh [] x
 
 /-- the generalised round-trip lemma: loading the encoding of a well-formed value pushes exactly
 that value and continues with the rest of the input -/
-theorem run_enc (hcfg : cfg.py3str_as_py2str = false) (v : PyVal) : RT cfg v := by
+theorem run_enc (hcfg : cfg.py3str_as_py2str = false) (hmem : cfg.memLimit = none) (v : PyVal) :
+    RT cfg v := by
   refine PyVal.rec (motive_1 := RT cfg)
     (motive_2 := fun xs => ∀ x ∈ xs, RT cfg x)
     (motive_3 := fun kvs => ∀ kv ∈ kvs, RT cfg kv.1 ∧ RT cfg kv.2)
@@ -310,7 +311,7 @@ theorem run_enc (hcfg : cfg.py3str_as_py2str = false) (v : PyVal) : RT cfg v := 
     intro xs ih h rest st
     simp only [WF] at h
     simp only [enc, List.cons_append, List.append_assoc]
-    rw [run_newlist cfg _ st xs.length h.1]
+    rw [run_newlist cfg _ st hmem xs.length h.1]
     have := run_encItems cfg xs [] ih h.2 (by simpa using h.1) rest st
     simpa using this
   case tuple =>
